@@ -1013,6 +1013,7 @@ func genEnv(r *gen.Rand) envInput {
 	// what can be named
 	fl := flatten(&root)
 	var keys, aliases []string
+	ipcHost := map[string]string{} // target -> host of the task that binds an IPC-addressed channel ("?" = not pinned)
 	for _, f := range fl {
 		if f.T.Mode == "basic" {
 			continue
@@ -1024,15 +1025,26 @@ func genEnv(r *gen.Rand) envInput {
 					seen[c.Name] = true
 					continue // not advertised: naming it fails the configuration
 				}
+				h := f.T.Host
+				if h == "" {
+					h = "?"
+				}
 				keys = append(keys, f.path()+":"+c.Name)
+				if c.Addr == "ipc" {
+					ipcHost[f.path()+":"+c.Name] = h
+				}
 				if c.Global != "" && (!clean || !seen[c.Name]) {
 					aliases = append(aliases, "::"+c.Global) // clean: only aliases of declarations that apply
+					if c.Addr == "ipc" {
+						ipcHost["::"+c.Global] = h
+					}
 				}
 				seen[c.Name] = true
 			}
 		}
 	}
-	target := func() string {
+	curHost := "" // host of the task whose connect block is being generated ("" = several / not pinned)
+	target0 := func() string {
 		x := r.Intn(100)
 		if clean {
 			x = x * 82 / 100
@@ -1055,6 +1067,17 @@ func genEnv(r *gen.Rand) envInput {
 			return r.Pick([]string{"w.nowhere:in0", "w.t0:missing", "", "in0", "::zz", "w.t0", "W.T0:IN0", "w.t0:in0 x"})
 		}
 	}
+	// clean workflows do not connect to an IPC endpoint of another host (refused)
+	target := func() string {
+		for try := 0; try < 6; try++ {
+			tg := target0()
+			if h, ipc := ipcHost[tg]; clean && ipc && (h == "?" || h != curHost) {
+				continue
+			}
+			return tg
+		}
+		return genExplicit(r)
+	}
 	declOut := func(names []string) outJ {
 		return outJ{Name: r.Pick(names), Tr: r.Pick(transports), Target: target()}
 	}
@@ -1075,6 +1098,10 @@ func genEnv(r *gen.Rand) envInput {
 		names := outNames
 		if r.Chance(1, 40) {
 			names = inNames // a name used in both directions
+		}
+		curHost = ""
+		if ro.Task != nil {
+			curHost = ro.Task.Host
 		}
 		if ro.Task == nil {
 			if r.Chance(1, 6) {
@@ -1135,9 +1162,15 @@ func corpus() []envInput {
 		w("plain",
 			t("b", "direct", "h1", []inJ{{Name: "in0", Tr: "zeromq"}, {Name: "ctl", Addr: "ipc", Tr: "shmem", Global: "ga"}}, nil,
 				[]inJ{{Name: "in0", Tr: "shmem"}, {Name: "in1"}}, nil),
-			t("c", "fairmq", "h2", nil, []outJ{{Name: "out0", Target: "w.b:in0", Tr: "nanomsg"}, {Name: "out1", Target: "::ga"},
+			t("c", "fairmq", "h2", nil, []outJ{{Name: "out0", Target: "w.b:in0", Tr: "nanomsg"},
 				{Name: "out2", Target: "w.b:in1"}, {Name: "mon", Target: "tcp://somewhere:1234", Tr: "zeromq"}}, nil,
-				[]outJ{{Name: "out0", Target: "ignored"}})),
+				[]outJ{{Name: "out0", Target: "ignored"}}),
+			t("d", "direct", "h1", nil, []outJ{{Name: "out1", Target: "::ga"}, {Name: "out2", Target: "w.b:ctl"}}, nil, nil)),
+		// former finding C13-d (repaired): an IPC endpoint is reachable on the binder's host
+		// only; a peer on another host is refused
+		w("ipc-across-hosts",
+			t("b", "direct", "h1", []inJ{{Name: "in0", Addr: "ipc"}}, nil, nil, nil),
+			t("c", "fairmq", "h2", nil, []outJ{{Name: "out0", Target: "w.b:in0"}}, nil, nil)),
 		// alias claimed by two tasks: rejected
 		w("alias-in-two-tasks",
 			t("b", "direct", "h1", []inJ{{Name: "in0", Global: "ga"}}, nil, nil, nil),
